@@ -176,6 +176,7 @@ def run(run: Run):
     call_sites(run)
     from props import C18_validator
     C18_validator.run(run)
+    run.native_standin("props.C18_native", "all_scenarios", "method-settings corpus through the real generation path; population observed on a loopback channel")
     run.not_decided.append("RFC-4122 shape and freshness of uuid.uuid4() (stdlib, assumed)")
 
 
